@@ -66,12 +66,59 @@ def gen_repair_case(rng, scripted_ok=True):
     return case
 
 
+def gen_dem_case(rng):
+    """DEM.do on a bounded problem: the repair as the mutation operator applies it (per-variable ranges of very different scale)"""
+    k = rng.choice([1, 1, 2]); n = rng.choice([1, 2, 3, 5]); v = rng.choice([2, 3, 4])
+    xl, xu, kinds = gens.bounds(rng, v)
+    if rng.random() < 0.6:          # ranges nested inside each other: a violation of a narrow range stays inside the widest one
+        wide = rng.randrange(v)
+        for j in range(v):
+            c = rng.uniform(-1, 1); w = rng.choice([1e-3, 0.1, 1.0]) if j != wide else rng.choice([10.0, 100.0])
+            xl[j], xu[j] = c - w, c + w
+        kinds = ["nested"] * v
+    X = np.array([gens.in_box(rng, xl, xu, n) for _ in range(1 + 2 * k)])
+    return {"api": "dem", "k": k, "F": rng.choice([0.5, 1.0, 2.0, 0.25]), "name": rng.choice(list(NAMES)), "X": [enc(m) for m in X],
+            "xl": enc(xl), "xu": enc(xu), "kinds": kinds, "seed": rng.randrange(2 ** 31)}
+
+
+def run_dem(case):
+    from pymoode.operators.dem import DEM
+    from pymoo.core.population import Population
+    from pymoo.core.problem import Problem
+    X = np.array([decarr(m, 2) for m in case["X"]])
+    n_par, n, v = X.shape
+    xl, xu = decarr(case["xl"]), decarr(case["xu"])
+    P = np.arange(n_par * n).reshape(n_par, n).T
+    out = {}
+    for tag, prob in (("V0", Problem(n_var=v, n_obj=1, xl=None, xu=None)), ("Z", Problem(n_var=v, n_obj=1, xl=xl.copy(), xu=xu.copy()))):
+        pop = Population.new("X", X.reshape(n_par * n, v).copy())
+        dem = DEM(F=case["F"], gamma=None, de_repair=case["name"], n_diffs=case["k"])
+        np.random.seed(case["seed"])
+        with Recorder() as rec:
+            off = dem.do(prob, pop, P)
+        out[tag] = enc(off.get("X")); out["events_" + tag] = enc_events(rec.events)
+        out["frame_" + tag] = bool(np.array_equal(pop.get("X"), X.reshape(n_par * n, v)))
+    return {"Z": out["Z"], "V0": out["V0"], "events": out["events_Z"], "events0": out["events_V0"],
+            "args_unchanged": out["frame_Z"] and out["frame_V0"]}
+
+
+def dem_term(case, obs):
+    from harness.c10 import tensor_term
+    X = [decarr(m, 2) for m in case["X"]]
+    return ("match dem_do (N:=Fn) (FScalar (N:=Fn) %s) None %s (Some (%s, %s)) %s %s with\n"
+            "  | Ok (V, rest) => no_events rest && fmat_same V %s\n  | Err _ => false end") % (
+        cfs(case["F"]), NAMES[case["name"]], cfl(decarr(case["xl"])), cfl(decarr(case["xu"])), tensor_term(X),
+        cevents(dec_events(obs["events"])), cfmat(decarr(obs["Z"], 2)))
+
+
 class C11(Check):
     ID = "C11"
-    IMPORTS = "From PV Require Import Model.Repair."
+    IMPORTS = "From PV Require Import Model.Repair Model.Mutate."
     RULE = ("repair functions of dem.py called on X.copy() with generated mutant matrices (coordinates below / above / on / inside "
             "the bounds; zero-width, 1-ulp, tiny and asymmetric ranges; bases on bounds), draws recorded or scripted "
-            "(0, 2^-1074, 2^-53, 0.5, 1-2^-53); non-trivial = at least one coordinate violates a bound; distinct by hash of the case")
+            "(0, 2^-1074, 2^-53, 0.5, 1-2^-53); one case in four goes through DifferentialMutation.do on a bounded problem (scalar F, no jitter, "
+            "ranges of very different width, some nested in each other) and is judged against the unrepaired mutants of the same call on an "
+            "unbounded problem; non-trivial = at least one coordinate violates a bound; distinct by hash of the case")
     ASSUMPTIONS = ["exact-arithmetic theorem (Q); rounding is covered only by the bit-exact runs and the float oracle",
                    "base vectors inside the box (hypothesis of the theorem, guaranteed by C01's induction)"]
     QUICK_N = 400
@@ -79,9 +126,11 @@ class C11(Check):
 
     def gen(self, n):
         for _ in range(n):
-            yield gen_repair_case(self.rng)
+            yield gen_dem_case(self.rng) if self.rng.random() < 0.25 else gen_repair_case(self.rng)
 
     def run(self, case):
+        if case.get("api") == "dem":
+            return run_dem(case)
         from pymoode.operators.dem import REPAIRS
         X, Xb = decarr(case["X"]), decarr(case["Xb"])
         xl, xu = decarr(case["xl"]), decarr(case["xu"])
@@ -96,19 +145,28 @@ class C11(Check):
     def oracle(self, case, obs):
         if not obs["args_unchanged"]:
             return "C11-frame: base vectors or bounds were modified"
+        if case.get("api") == "dem":
+            if dec_events(obs["events0"]):
+                return "C11-dem: mutation with scalar F and no jitter consumed random draws"
+            V0 = decarr(obs["V0"], 2); Xb = decarr(case["X"][0], 2)
+            return repair_oracle(case["name"], V0, Xb, decarr(case["xl"]), decarr(case["xu"]), decarr(obs["Z"], 2), tag="C11-dem")
         return repair_oracle(case["name"], decarr(case["X"]), decarr(case["Xb"]), decarr(case["xl"]), decarr(case["xu"]), decarr(obs["Z"]))
 
     def coq(self, case, obs):
+        if case.get("api") == "dem":
+            return dem_term(case, obs)
         return repair_term(case["name"], decarr(case["X"]), decarr(case["Xb"]), decarr(case["xl"]), decarr(case["xu"]),
                            dec_events(obs["events"]), decarr(obs["Z"]))
 
     def nontrivial(self, case, obs):
-        X, xl, xu = decarr(case["X"]), decarr(case["xl"]), decarr(case["xu"])
+        xl, xu = decarr(case["xl"]), decarr(case["xu"])
+        X = decarr(obs["V0"], 2) if case.get("api") == "dem" else decarr(case["X"])
         return bool(np.any(X < xl) or np.any(X > xu))
 
     def classes(self, case, obs):
-        X, xl, xu = decarr(case["X"]), decarr(case["xl"]), decarr(case["xu"])
-        out = [case["name"]]
+        xl, xu = decarr(case["xl"]), decarr(case["xu"])
+        X = decarr(obs["V0"], 2) if case.get("api") == "dem" else decarr(case["X"])
+        out = [case["name"]] + (["through-DEM.do"] if case.get("api") == "dem" else [])
         if np.any(X < xl): out.append("lower-violation")
         if np.any(X > xu): out.append("upper-violation")
         if np.any(xl == xu): out.append("zero-width")
@@ -117,6 +175,8 @@ class C11(Check):
         return out
 
     def explain(self, case, obs):
+        if case.get("api") == "dem":
+            return None
         n = len(case["X"])
         return eval_print(self.ID, self.IMPORTS, ["repair (N:=Fn) %s %s %s (tile %d %s) (tile %d %s) %s" % (
             NAMES[case["name"]], cfl(decarr(case["X"])), cfl(decarr(case["Xb"])), n, cfl(decarr(case["xl"])), n, cfl(decarr(case["xu"])),
